@@ -78,6 +78,9 @@ for _cfg in (('core_maths', 3), ('core_maths', 4)):
 DIRECTED.append(dict(cfg=('core_maths', 3), kind='fit', stage='combine', P_obs=1, P_first=1, ipe=False, prior_changed=True, ops=['pipe_same']))
 DIRECTED.append(dict(cfg=('core_maths', 4), kind='fit', stage='combine', P_obs=2, P_first=2, ipe=False, prior_changed=True, ops=['pipe_same', 'pipe_other_like']))
 for _st in STAGES:
+    DIRECTED.append(dict(cfg=('core_maths', 3), kind='fit', stage=_st, P_obs=1, P_first=1, ipe=False, plot=True, ops=['pipe_same']))
+    DIRECTED.append(dict(cfg=('core_maths', 4), kind='fit', stage=_st, P_obs=2, P_first=2, ipe=False, plot=True, ops=['pipe_same', 'pipe_other_like']))
+for _st in STAGES:
     DIRECTED.append(dict(cfg=('core_maths', 1), kind='fit', stage=_st, P_obs=1, P_first=1, ipe=False, ops=['pipe_synth', 'pipe_synth']))
     DIRECTED.append(dict(cfg=('core_maths', 1), kind='fit', stage=_st, P_obs=2, P_first=3, ipe=False, ops=['pipe_synth', 'restart:2']))
 for _st in STAGES:
@@ -98,7 +101,7 @@ def sigs_of(args, r):
     return s
 
 
-def pipeline(like_name, comp, upto=None, opts=None):
+def pipeline(like_name, comp, upto=None, opts=None, plot=False):
     prog = []
     for st in STAGES:
         if st == upto:
@@ -107,6 +110,8 @@ def pipeline(like_name, comp, upto=None, opts=None):
         if st == 'test_all':
             kw.update(opts or FIT_OPTS)
         prog.append(['fit', kw])
+    if plot and upto is None:
+        prog.append(['fit', dict(stage='plot', comp=comp, like=like_name)])      # the plotting stage runs on rank 0 only
     return prog
 
 
@@ -211,7 +216,7 @@ def draw_history(seed, i, quick, recipe=None):
             o = op_opts()
             need_lib(runname, n, lower=bool(o.get('ignore_previous_eqns')))
             need_like('Lobs', like_obs)
-            cur().extend(pipeline('Lobs', n, opts=o))
+            cur().extend(pipeline('Lobs', n, opts=o, plot=recipe.get('plot', rng.random() < 0.35)))
             desc.append('pipeline same likelihood' + (' (ipe)' if o.get('ignore_previous_eqns') else ''))
         elif c < 0.78:
             o = op_opts()
